@@ -265,6 +265,12 @@ func (this *contractExecutor) decodeContractData(txData string) (*ContractRawDat
 		this.logger.Errorf("Contract TransferValue convert error:%s", err.Error())
 		return nil, fmt.Sprintf("Contract data TransferValue eror, data: %s", data.TransferValue)
 	}
+	if transferValue.Sign() < 0 {
+		// a negative value would pass every balance check and be "subtracted" from the sender and
+		// "added" to the recipient, crediting both
+		this.logger.Errorf("Contract TransferValue is negative:%s", data.TransferValue)
+		return nil, fmt.Sprintf("Contract data TransferValue eror, data: %s", data.TransferValue)
+	}
 
 	var input []byte
 	if common.IsProposal005() && (data.AbiData == "" || data.AbiData == "0x0") {
